@@ -175,7 +175,7 @@ def run(run):
         return out
 
     thresholds = [None, -1, -5, 0, 1, 64, 256, 'rand']
-    n_seq = 600 if thorough else 90
+    n_seq = 3000 if thorough else 200
     for si in range(n_seq):
         if not run.mine(si):
             continue
